@@ -492,6 +492,18 @@ func c14ObjectUses(c *core.Ctx, f *ssa.Function, load *ssa.UnOp, g *ssa.Global, 
 				c.OK(rule, key, core.InstrPos(ci), full)
 				continue
 			}
+			// objects documented as safe for concurrent use by multiple goroutines, used through their own methods
+			if sig, ok := o.Type().(*types.Signature); ok && sig.Recv() != nil {
+				if rn := core.NamedOf(sig.Recv().Type()); rn != nil && rn.Obj().Pkg() != nil {
+					switch rn.Obj().Pkg().Path() + "." + rn.Obj().Name() {
+					case "regexp.Regexp", "strings.Replacer", "time.Location":
+						if !strings.HasPrefix(o.Name(), "Longest") {
+							c.OK(rule, key, core.InstrPos(ci), full+" (documented safe for concurrent use)")
+							continue
+						}
+					}
+				}
+			}
 		}
 		c.Bad(rule, key, core.InstrPos(ci), "object held in a package-level variable is passed to "+ci.Common().String()+", which is not one of the synchronised operations (sync.Pool, sync/atomic, LoadingCache.Get)")
 	}
